@@ -169,8 +169,33 @@ def nonsympy_fields(cls) -> list[str]:
     return [f.name for f in dataclasses.fields(cls) if not f.metadata.get("sympify")]
 
 
-@functools.lru_cache(maxsize=1)
+INCLUDE_CLOSURES = False
+"""Set by a check (before drawing) to add phase-space factors that are *closures*: distinct
+functions from one factory, i.e. equal ``__module__`` and ``__qualname__`` (not picklable, so only
+checks that do not pickle enable them)."""
+
+
+def _make_closure_phsp(weight: int):
+    def rho(s, m1, m2):
+        import sympy as sp  # noqa: PLC0415
+
+        return weight * sp.sqrt(s - (m1 + m2) ** 2) / (weight + sp.sqrt(s))
+
+    return rho
+
+
+_CLOSURES = {"closure_phsp_1": _make_closure_phsp(1), "closure_phsp_2": _make_closure_phsp(2)}
+
+
 def phsp_factors() -> dict[str, Any]:
+    out = dict(_library_phsp_factors())
+    if INCLUDE_CLOSURES:
+        out.update(_CLOSURES)
+    return out
+
+
+@functools.lru_cache(maxsize=1)
+def _library_phsp_factors() -> dict[str, Any]:
     """name -> callable complying with PhaseSpaceFactorProtocol (found by introspection:
     unevaluated classes whose sympy fields are exactly (s, m1, m2), plus the documented
     function ``chew_mandelstam_s_wave``)."""
@@ -532,7 +557,14 @@ def nondefault_attributes(tree) -> list[str]:
 
 # --------------------------------------------------------------------------- structural digest
 def attr_repr(value) -> str:
-    if inspect.isclass(value) or inspect.isfunction(value):
+    if inspect.isclass(value):
+        return f"{value.__module__}.{value.__qualname__}"
+    if inspect.isfunction(value):
+        # distinct function objects are distinct values even if module and qualified name agree
+        # (closures of one factory): identify the generated ones by their registry key
+        for key, fn in _CLOSURES.items():
+            if fn is value:
+                return f"{value.__module__}.{value.__qualname__}#{key}"
         return f"{value.__module__}.{value.__qualname__}"
     return repr(value)
 
@@ -891,7 +923,8 @@ def _extra_strategy(name: str):
         if f.name == "name":
             parts[f.name] = st.sampled_from(NAMES)
         elif f.name == "phsp_factor":
-            parts[f.name] = st.sampled_from(sorted(phsp_factors()))
+            names = sorted(phsp_factors())
+            parts[f.name] = st.sampled_from(names + [n for n in names if n.startswith("closure_phsp_")] * 2)
         elif f.default is not dataclasses.MISSING:
             continue  # unknown non-sympy field with a default: leave the default
         else:
